@@ -48,8 +48,8 @@ Proof.
     + rewrite (drop_div fs Hok 25 _ eq_refl). reflexivity.
     + opc VOPC 17 24 Hok.
     + opc VOPC 17 24 Hok.
-    + change (f_size (fmt_format VOPC)) with 4. destruct (opnd_is_lit s0); lia.
-    + destruct (opnd_is_lit s0); lia.
+    + change (f_size (fmt_format VOPC)) with 4. destruct (opnd_is_lit s0); flia.
+    + destruct (opnd_is_lit s0); flia.
   - unfold spec_inst, base_inst, dsize. cbn [d_row words snd]. reflexivity.
 Qed.
 
@@ -60,7 +60,7 @@ Proof.
   cbn [wf]. unfold src9. rewrite !andb_true_iff. intros [[Hr Ha] Hv].
   pose proof (row_opcode_bound VOP1 r 8 Hr eq_refl) as Hop.
   pose proof (opnd_code_bound s0 Ha) as Hab.
-  assert (Hvb : vdst <= 255) by (destruct (r_opcode r =? 2); lia).
+  assert (Hvb : vdst <= 255) by (destruct (r_opcode r =? 2); flia).
   set (fs := [(code_of s0, 9); (r_opcode r, 8); (vdst, 8); (63, 7)]).
   assert (Hok : fields_ok fs) by fok.
   apply decode_encode_wrap; unfold dsize; cbn [words fst snd]; fold fs.
@@ -82,13 +82,13 @@ Proof.
       unfold spec_inst, base_inst, dsize. cbn [d_row words snd]. rowfmt Hr.
       destruct (N.eqb_spec (r_opcode r) 2); rewrite cnt64_spec;
       destruct (N.eqb_spec (r_opcode r) 4), (N.eqb_spec (r_opcode r) 15), (N.eqb_spec (r_opcode r) 16);
-        try (exfalso; lia); cbn [orb]; cbv iota;
+        try (exfalso; flia); cbn [orb]; cbv iota;
         rewrite ?with_count_spec2; destruct (opnd_is_lit s0); reflexivity.
     + rewrite (drop_div fs Hok 25 _ eq_refl). reflexivity.
     + opc VOP1 9 16 Hok.
     + opc VOP1 9 16 Hok.
-    + change (f_size (fmt_format VOP1)) with 4. destruct (opnd_is_lit s0); lia.
-    + destruct (opnd_is_lit s0); lia.
+    + change (f_size (fmt_format VOP1)) with 4. destruct (opnd_is_lit s0); flia.
+    + destruct (opnd_is_lit s0); flia.
   - unfold spec_inst, base_inst, dsize. cbn [d_row words snd]. reflexivity.
 Qed.
 
@@ -138,25 +138,25 @@ Proof.
       unfold spec_inst, base_inst, dsize. cbn [d_row words snd]. rowfmt Hr.
       destruct (is_madk (r_opcode r)) eqn:Em.
       * rewrite andb_true_r in Hnl. rewrite Hnl in *.
-        destruct (N.ltb_spec len 8); [lia|]. rewrite (Hw1 k eq_refl). reflexivity.
+        destruct (N.ltb_spec len 8); [flia|]. rewrite (Hw1 k eq_refl). reflexivity.
       * destruct (opnd_is_lit s0); reflexivity.
-    + rewrite (drop_div fs Hok 25 _ eq_refl). cbn [pack]. pow2. lia.
+    + rewrite (drop_div fs Hok 25 _ eq_refl). cbn [pack]. pow2. flia.
     + opc VOP2 25 30 Hok.
     + opc VOP2 25 30 Hok.
-    + change (f_size (fmt_format VOP2)) with 4. destruct (opnd_is_lit s0), (is_madk (r_opcode r)); lia.
-    + destruct (opnd_is_lit s0), (is_madk (r_opcode r)); lia.
+    + change (f_size (fmt_format VOP2)) with 4. destruct (opnd_is_lit s0), (is_madk (r_opcode r)); flia.
+    + destruct (opnd_is_lit s0), (is_madk (r_opcode r)); flia.
   - unfold spec_inst, base_inst, dsize. cbn [d_row words snd]. destruct (is_madk (r_opcode r)); reflexivity.
 Qed.
 
 Lemma sdwa_sel_mask k : k <= 6 -> sdwa_sel k = sel_mask k.
 Proof.
-  intros H. assert (k = 0 \/ k = 1 \/ k = 2 \/ k = 3 \/ k = 4 \/ k = 5 \/ k = 6) as E by lia.
+  intros H. assert (k = 0 \/ k = 1 \/ k = 2 \/ k = 3 \/ k = 4 \/ k = 5 \/ k = 6) as E by flia.
   destruct E as [->|[->|[->|[->|[->|[->| ->]]]]]]; reflexivity.
 Qed.
 
 Lemma sdwa_unused_id k : k <= 2 -> sdwa_unused k = k.
 Proof.
-  intros H. assert (k = 0 \/ k = 1 \/ k = 2) as E by lia. destruct E as [->|[->| ->]]; reflexivity.
+  intros H. assert (k = 0 \/ k = 1 \/ k = 2) as E by flia. destruct E as [->|[->| ->]]; reflexivity.
 Qed.
 
 Theorem decode_encode_vop2_sdwa c r vdst vsrc0 vsrc1 dst_sel dst_unused src0_sel src1_sel s1 tail :
@@ -180,7 +180,7 @@ Proof.
     + cbn [dispatch]. unfold decode_vop2. cbv zeta. xfield Hok.
       change (i_row (inst0 (fmt_format VOP2) r)) with r.
       change (249 =? 249) with true. cbv iota.
-      destruct (N.ltb_spec len 8); [lia|].
+      destruct (N.ltb_spec len 8); [flia|].
       xfield Hgk. xsub Hgk. closed_mods.
       change (nz 0) with false. cbn [orb]. cbv iota. cbn [bind]. cbv beta iota.
       rewrite !nz_b2n.
@@ -192,11 +192,11 @@ Proof.
       destruct s1.
       * cbn [negb orb] in Hsg. apply N.leb_le in Hsg. rewrite new_sreg_spec by assumption. reflexivity.
       * reflexivity.
-    + rewrite (drop_div fs Hok 25 _ eq_refl). cbn [pack]. pow2. lia.
+    + rewrite (drop_div fs Hok 25 _ eq_refl). cbn [pack]. pow2. flia.
     + opc VOP2 25 30 Hok.
     + opc VOP2 25 30 Hok.
-    + change (f_size (fmt_format VOP2)) with 4. lia.
-    + lia.
+    + change (f_size (fmt_format VOP2)) with 4. flia.
+    + flia.
   - unfold spec_inst, base_inst, dsize. cbn [d_row words snd]. reflexivity.
 Qed.
 
@@ -218,13 +218,13 @@ Proof.
   - intros len w1 Hlen Hw1. rewrite (Hw1 _ eq_refl). clear Hw1.
     rewrite (core_of_row c len (pack fs) (pack gs) r SMEM 26 48 Hr eq_refl).
     + cbn [dispatch]. unfold decode_smem, read_hi.
-      destruct (N.ltb_spec len 8); [lia|]. cbn [bind]. xfield Hok. xfield Hgk.
+      destruct (N.ltb_spec len 8); [flia|]. cbn [bind]. xfield Hok. xfield Hgk.
       change (i_row (inst0 (fmt_format SMEM) r)) with r.
       rewrite (getop_code data Hd1). cbn [bind]. rewrite literal_pre0.
       2: { rewrite (sdst_nolit data Hd2). discriminate. }
       cbn [bind]. cbv beta iota. rewrite (sdst_nolit data Hd2). rewrite !nz_b2n.
       rewrite N.shiftl_mul_pow2, N.pow_1_r, (N.mul_comm sbase 2).
-      rewrite (new_sreg_spec (2 * sbase)) by lia.
+      rewrite (new_sreg_spec (2 * sbase)) by flia.
       unfold spec_inst, base_inst, dsize. cbn [d_row words snd]. rowfmt Hr.
       destruct (smem_cnt (r_opcode r)); rewrite ?with_count_spec2; destruct imm.
       all: try reflexivity.
@@ -232,7 +232,7 @@ Proof.
     + rewrite (drop_div fs Hok 26 _ eq_refl). reflexivity.
     + opc SMEM 18 25 Hok.
     + opc SMEM 18 25 Hok.
-    + change (f_size (fmt_format SMEM)) with 8. lia.
-    + lia.
+    + change (f_size (fmt_format SMEM)) with 8. flia.
+    + flia.
   - unfold spec_inst, base_inst, dsize. cbn [d_row words snd]. reflexivity.
 Qed.
